@@ -43,15 +43,19 @@ var coqPrelude = []string{
 	"Definition U (code : int) (raw : bytes) : proto := PUnknown (N_of_int code) raw.",
 	"Definition EncCaseI (ins : list proto) (m : obs bytes) (d : obs (list proto)) (ids : list int) (gets : list (int * option int)) (valid : bool) : enc_case := EncCase ins m d (map N_of_int ids) (map (fun g => (N_of_int (fst g), option_map nat_of_int (snd g))) gets) valid.",
 	"Definition DecCaseI (b : bytes) (d : obs (list proto)) (alloc : int) : dec_case := DecCase b d (N_of_int alloc).",
+	"Definition PDecCaseI (k : pkind) (rf : bool) (b : bytes) (d : obs (list proto)) (n : int) : pdec_case := PDecCase k rf b d (nat_of_int n).",
 }
 
 type Replay struct {
-	Mode  string    `json:"mode,omitempty"`  // alias: seq | conc
-	Metas [][]PSpec `json:"metas,omitempty"` // alias: the metadata values of the history
-	Kind  string    `json:"kind"`            // enc | dec | alias
-	Specs []PSpec   `json:"specs,omitempty"`
-	Hex   string    `json:"hex,omitempty"`
-	What  string    `json:"what,omitempty"`
+	Mode   string    `json:"mode,omitempty"`  // alias: seq | conc
+	Metas  [][]PSpec `json:"metas,omitempty"` // alias: the metadata values of the history
+	Kind   string    `json:"kind"`            // enc | dec | alias | proto | proto-roundtrip | equal | misc
+	Specs  []PSpec   `json:"specs,omitempty"`
+	Specs2 []PSpec   `json:"specs2,omitempty"` // equal: the other metadata
+	PKind  string    `json:"pkind,omitempty"`  // proto: bitswap | gateway | gs | unknown
+	Entry  string    `json:"entry,omitempty"`  // proto: U | R | B
+	Hex    string    `json:"hex,omitempty"`
+	What   string    `json:"what,omitempty"`
 }
 
 type runner struct {
@@ -327,10 +331,12 @@ func main() {
 	c.Family("enc", req, "enc_case_ok", 300)
 	c.Family("dec", req, "dec_case_ok", 400)
 	c.Family("lim", req, "lim_case_ok", 50)
+	c.Family("pdec", req, "pdec_case_ok", 500)
+	c.Family("eq", req, "eq_case_ok", 300)
 	r := &runner{c: c, w: &worker{}, perClass: map[string]int{}, fails: map[string][]vlib.Failure{}, rawDec: map[string][]rawFail{}}
 	defer r.w.stop()
 	defer r.flush()
-	c.Res.Rule = "enc: EXHAUSTIVE over every sequence of length 1..3 (quick) / 1..4 (thorough) of a 12-symbol alphabet {bitswap, gateway, graphsync-filecoin x 4 piece CIDs/flag settings, 6 unknown codes below/between/above the known IDs with payloads 0..128}; SAMPLED: sequences of length 4..6 with random payloads 0..300 B and 9 piece CIDs, unknown payload length sweep 0..300 and 1000..1024, metadata.HTTPV1() combinations, 13..40 protocols with distinct IDs; non-trivial = at least 2 protocols one of which has a variable-length encoding. dec: valid encodings, all their truncations, bit flips, byte edits, all ordered pairs and random trains concatenated as given, hostile/boundary/malformed length prefixes, every varint of valid encodings (protocol code, unknown size, gateway length, the varints inside a CIDv1) re-spelled non-minimally with 1..3 and up-to-10-byte padding, padded size varints in front of payloads overlapping a well-formed protocol sequence at every alignment, hand-written non-canonical DAG-CBOR, random bytes <= 1 KiB; non-trivial = accepted with >= 2 protocols, or rejected input of >= 3 bytes. alias (direct oracle only, no Coq cases): histories of 2..4 different metadata values marshalled in turn with every returned slice kept and re-checked, input buffers overwritten after decoding, Get/Protocols results re-checked after later activity, plus concurrent rounds. lim: largest graphsync link the DAG-CBOR budget admits"
+	c.Res.Rule = "enc: EXHAUSTIVE over every sequence of length 1..3 (quick) / 1..4 (thorough) of a 12-symbol alphabet {bitswap, gateway, graphsync-filecoin x 4 piece CIDs/flag settings, 6 unknown codes below/between/above the known IDs with payloads 0..128}; SAMPLED: sequences of length 4..6 with random payloads 0..300 B and 9 piece CIDs, unknown payload length sweep 0..300 and 1000..1024, metadata.HTTPV1() combinations, 13..40 protocols with distinct IDs; non-trivial = at least 2 protocols one of which has a variable-length encoding. dec: valid encodings, all their truncations, bit flips, byte edits, all ordered pairs and random trains concatenated as given, hostile/boundary/malformed length prefixes, every varint of valid encodings (protocol code, unknown size, gateway length, the varints inside a CIDv1) re-spelled non-minimally with 1..3 and up-to-10-byte padding, padded size varints in front of payloads overlapping a well-formed protocol sequence at every alignment, hand-written non-canonical DAG-CBOR, random bytes <= 1 KiB; non-trivial = accepted with >= 2 protocols, or rejected input of >= 3 bytes. alias (direct oracle only, no Coq cases): histories of 2..4 different metadata values marshalled in turn with every returned slice kept and re-checked, input buffers overwritten after decoding, Get/Protocols results re-checked after later activity, plus concurrent rounds. pdec: every protocol's UnmarshalBinary / ReadFrom(bytes.Reader) / ReadFrom(bytes.Buffer) called directly on its own encoding (round trip), on every other protocol's encoding, with trailing bytes, truncated, bit-flipped, on malformed/non-minimal varints, hostile sizes, the DAG-CBOR variants and random bytes. eq: Metadata.Equal on all ordered pairs of 27 metadata values (equal, unequal, reordered duplicates, different lengths, an Unknown carrying a known protocol's ID and bytes, values that cannot be marshalled) and sampled perturbations. misc (oracle only): WithProtocol (registered custom protocol round-trips and is retrievable; unregistered code = Unknown; parent context unchanged; override of a built-in code; twice-derived context), ErrInvalidMetadata.Error, unmarshalable values. lim: largest graphsync link the DAG-CBOR budget admits"
 	c.Res.Exhaustive = false
 	c.Note(fmt.Sprintf("metadata.MaxMetadataSize = %d", metadata.MaxMetadataSize))
 
@@ -351,6 +357,30 @@ func main() {
 			} else {
 				fmt.Println("oracles hold on this input")
 			}
+		case "proto":
+			b := mustHex(rp.Hex)
+			o := r.protoOnce(rp.PKind, rp.Entry, b)
+			fmt.Printf("replay proto: %s.%s input=%x\n  result: %s %s -> %s, %d bytes read, allocated %d\n  re-encoding: %s %x\n", rp.PKind, rp.Entry, b, o.out, o.msg, kinds(o.protos), o.n, o.alloc, o.reOut, o.re)
+			c.Eval()
+			if cl, d := protoOracle(rp.PKind, rp.Entry, b, o); cl != "" {
+				fmt.Println("ORACLE-FAIL:", cl, "::", d)
+				c.Fail("proto:"+cl+":"+rp.PKind+"."+rp.Entry+":"+rp.Hex, d, rp)
+			} else {
+				fmt.Println("oracles hold on this input")
+			}
+		case "proto-roundtrip":
+			fmt.Printf("replay proto round trip: %s (encoding %s), entry points U/R/B on a fresh value of its type\n", specSig(rp.Specs), rp.Hex)
+			for _, e := range []string{"U", "R", "B"} {
+				o := r.protoOnce(rp.PKind, e, mustHex(rp.Hex))
+				fmt.Printf("  %s.%s: %s %s -> %s (%d bytes read)\n", rp.PKind, e, o.out, o.msg, kinds(o.protos), o.n)
+			}
+			r.protoRoundTrip(rp.Specs[0])
+		case "equal":
+			r.doEqual("replay", rp.Specs, rp.Specs2)
+			fmt.Printf("replay equal: %s = %s\n", specSig(rp.Specs), specSig(rp.Specs2))
+		case "misc":
+			r.doMisc()
+			fmt.Println("replay misc battery (WithProtocol, Error, unmarshalable values)")
 		case "alias":
 			class, desc, obs := r.aliasOnce(rp.Mode, rp.Metas)
 			fmt.Printf("replay alias (%s): metadata values = %s\n  observations: %s\n", rp.Mode, metasSig(rp.Metas), obs)
@@ -459,6 +489,130 @@ func main() {
 		}
 		r.doEnc("many-distinct", specs)
 	}
+
+	// ---- per-protocol entry points -----------------------------------------
+	rp2 := c.Rng.Fork("proto")
+	protoSpecs := append([]PSpec{}, al...)
+	protoSpecs = append(protoSpecs, PSpec{K: "httpv1"}, unk(0x12, []byte{1}), unk(1<<63-1, nil), unk(0x0302, seqBytes(1024, 1)))
+	for _, cb := range [][]byte{cidV0, cidCommP, cidIdent0, cidIdent18, cidIdent19, cidIdent249, cidIdent250} {
+		protoSpecs = append(protoSpecs, gs(cb, rp2.Bool(), rp2.Bool()))
+	}
+	for i := 0; i < c.Pick(20, 300); i++ {
+		protoSpecs = append(protoSpecs, randomSpec(rp2, al))
+	}
+	var ownEnc [][]byte
+	for _, s := range protoSpecs {
+		r.protoRoundTrip(s)
+		ownEnc = append(ownEnc, mustEnc(s.build()))
+	}
+	// every decoder on every protocol's encoding (own and foreign), with trailing bytes,
+	// truncated, and with one byte changed
+	for i, e := range ownEnc {
+		if i >= 19+c.Pick(4, 60) {
+			break
+		}
+		for _, kind := range pkinds {
+			for _, entry := range []string{"U", "R", "B"} {
+				r.doProto("any-encoding", kind, entry, e)
+				r.doProto("trailing", kind, entry, cat(e, []byte{0x00}))
+				r.doProto("trailing", kind, entry, cat(e, []byte{0x80, 0x12}))
+				if len(e) > 1 {
+					r.doProto("truncated", kind, entry, e[:len(e)-1])
+					r.doProto("truncated", kind, entry, e[:1+rp2.Intn(len(e)-1)])
+				}
+				m := append([]byte{}, e...)
+				m[rp2.Intn(len(m))] ^= 1 << rp2.Intn(8)
+				r.doProto("bitflip", kind, entry, m)
+			}
+		}
+	}
+	for _, kind := range pkinds {
+		for _, entry := range []string{"U", "R", "B"} {
+			r.doProto("empty", kind, entry, nil)
+			for _, x := range [][]byte{{0x80}, {0x80, 0x12, 0x00}, {0xa0, 0x12}, {0xa0, 0x12, 0x01}, {0x90, 0x12}, {0x12}, {0x12, 0x00}, {0x12, 0x01}, {0x00, 0x00}, {0xe0, 0x03, 0x00}} {
+				r.doProto("fixed", kind, entry, x)
+			}
+			for _, mv := range malformedVarints() {
+				r.doProto("malformed-varint", kind, entry, mv)
+				r.doProto("malformed-varint", kind, entry, cat([]byte{0x12}, mv, []byte{1, 2}))
+			}
+		}
+	}
+	for _, entry := range []string{"U", "R", "B"} {
+		for _, sz := range hostileSizes() {
+			r.doProto("hostile-size", "unknown", entry, cat(uv(0x12), uv(sz), []byte{1, 2}))
+			r.doProto("hostile-size", "unknown", entry, cat(uv(idBitswap), uv(sz)))
+		}
+		for _, v := range gsVariants() {
+			if entry == "U" || strings.Contains(v.kind, "len") || strings.Contains(v.kind, "order") || strings.Contains(v.kind, "head") || strings.Contains(v.kind, "cid") {
+				r.doProto(v.kind, "gs", entry, cat([]byte{0x90, 0x12}, v.b))
+			}
+		}
+		for _, pad := range []int{1, 2, 9} {
+			r.doProto("nonminimal", "unknown", entry, paddedSizeWithTail(0x30, pad, []byte{0xaa}, []byte{0x80, 0x12}, pad))
+			r.doProto("nonminimal", "unknown", entry, cat(respell(0x30, pad), []byte{0x01, 0x07}))
+			r.doProto("nonminimal", "gs", entry, cat(respell(idGS, pad), gsPayload(cidIdent3, true, true)))
+			r.doProto("nonminimal", "bitswap", entry, respell(idBitswap, pad))
+			r.doProto("nonminimal", "gateway", entry, cat(respell(idGateway, pad), []byte{0}))
+			r.doProto("nonminimal", "gateway", entry, cat(uv(idGateway), respell(0, pad)))
+		}
+	}
+	for i, n := 0, c.Pick(300, 5000); i < n; i++ {
+		kind := pkinds[i%4]
+		entry := []string{"U", "R", "B"}[(i/4)%3]
+		var b []byte
+		switch i % 3 {
+		case 0:
+			b = rp2.Bytes(rp2.Intn(40))
+		case 1:
+			ids := [][]byte{{0x80, 0x12}, {0x90, 0x12}, {0xa0, 0x12}, {0x12}}
+			b = cat(ids[rp2.Intn(4)], rp2.Bytes(rp2.Intn(24)))
+		default:
+			l := rp2.Intn(30)
+			b = cat(uv(uint64(rp2.Intn(5000))), uv(uint64(l+rp2.Intn(3)-1)&0x3ff), rp2.Bytes(l))
+		}
+		r.doProto("random", kind, entry, b)
+	}
+
+	// ---- Metadata.Equal ----------------------------------------------------
+	gA, gB := gs(cidV1Raw, false, false), gs(cidV0, true, false)
+	eqSets := [][]PSpec{{}, {al[0]}, {al[1]}, {al[0], al[1]}, {al[1], al[0]}, {gA}, {gB}, {gA, gB}, {gB, gA}, {al[0], gA, al[7]}, {al[7], gA, al[0]},
+		{al[0], gA, al[7], al[1]}, {al[7]}, {unk(0x0302, []byte("hellp"))}, {unk(0x0303, []byte("hello"))}, {al[0], al[0]}, {gA, gA},
+		{{K: "unknown-raw", Code: idBitswap, Body: "8012"}},        // an Unknown that carries bitswap's ID and bytes
+		{{K: "unknown-raw", Code: idBitswap, Body: "8012"}, al[1]}, // ... next to the gateway
+		{{K: "unknown-raw", Code: idBitswap + 1, Body: "8012"}},    // same bytes, another ID
+		{{K: "unknown-raw", Code: idGateway, Body: "a01201"}},      // the gateway's ID, other bytes
+		{{K: "unknown-raw", Code: 0x0302, Body: ""}}, {{K: "httpv1"}}, {{K: "unknown-raw", Code: 0x01e0, Body: "e00300"}},
+		{{K: "gs-undef"}}, {{K: "gs-undef"}, al[0]}, {{K: "gs-undef", VD: true}}}
+	for i := range eqSets {
+		for j := range eqSets {
+			r.doEqual("pairs", eqSets[i], eqSets[j])
+		}
+	}
+	for i, n := 0, c.Pick(60, 1500); i < n; i++ {
+		a := make([]PSpec, 1+rp2.Intn(4))
+		for q := range a {
+			a[q] = randomSpec(rp2, al)
+		}
+		b := append([]PSpec{}, a...)
+		switch rp2.Intn(5) {
+		case 0: // shuffled construction order
+			for q := len(b) - 1; q > 0; q-- {
+				z := rp2.Intn(q + 1)
+				b[q], b[z] = b[z], b[q]
+			}
+		case 1: // one protocol replaced
+			b[rp2.Intn(len(b))] = randomSpec(rp2, al)
+		case 2: // one more
+			b = append(b, randomSpec(rp2, al))
+		case 3: // one fewer
+			b = b[:len(b)-1]
+		}
+		r.doEqual("sampled", a, b)
+	}
+
+	// ---- WithProtocol, ErrInvalidMetadata, values that cannot be marshalled ---
+	r.doMisc()
 
 	// ---- aliasing / history axis (oracle only) ------------------------------
 	ra := c.Rng.Fork("alias")
